@@ -2,7 +2,7 @@
    conditions hold of the code's own struct types, and the hypotheses are satisfiable by non-trivial values. *)
 From Coq Require Import List NArith ZArith Lia Bool Arith.
 From TarsV Require Import Gen.Consts Base.Hex Codec.Wire Codec.Skip Codec.Prim Codec.GenCodec Codec.Corr
-  Codec.RoundTrip Codec.RoundTripProofs Codec.TotalProofs Codec.PrefixProofs Codec.PrefixGenProofs Codec.NormProofs Codec.NestedProofs Gen.Schemas.
+  Codec.RoundTrip Codec.RoundTripProofs Codec.TotalProofs Codec.PrefixProofs Codec.PrefixGenProofs Codec.NormProofs Codec.NestedProofs Codec.CorrT Gen.Schemas.
 Import ListNotations.
 Open Scope N_scope.
 
@@ -199,3 +199,12 @@ Proof.
   intros sid vs Js body Jl Hm Hty Hx HJ HJl. destruct (fits_model_spec sid Hm) as [Hfin Hn].
   apply (extras_nested env0 8 8 sid vs Js body Jl); try assumption; [apply env0_wf_schema|lia].
 Qed.
+
+(* the lenient evaluators excuse exactly the model's fuel artifact: on the 41-member struct type the strict check
+   would report a disagreement although the code is right; on struct types that fit the model they are the strict ones
+   (CorrT.gcase_check_t_strict) *)
+Example fuel_artifact_excused :
+  let bs := encode wide_schema 0 (wide_deep 3) in
+  dec_check wide_schema (0%nat, HexS [], OVal (wide_deep 3)) = false /\
+  model_fits wide_schema 0 = false /\ model_fits env0 sid_requestf_RequestPacket = true.
+Proof. vm_compute. repeat split; reflexivity. Qed.
